@@ -7,6 +7,14 @@ reamber/algorithms/timing/{TimingMap.py, utils/*.py} on every run.
 import Reamber.Lemmas.Sweep
 import Reamber.Lemmas.Snapper
 import Reamber.Lemmas.TimingChain
+import Reamber.Lemmas.TimingOrder
+import Reamber.Lemmas.TimingMono
+import Reamber.Lemmas.TimingRoundTrip
+import Reamber.Lemmas.TimingRoundTripErr
+import Reamber.Lemmas.TimingBeats
+import Reamber.Lemmas.Argsort
+import Reamber.Lemmas.TimingD22
+import Reamber.Lemmas.TimingClosedForm
 import Reamber.Spec.Timing
 import Reamber.Generated.Consts
 
@@ -113,7 +121,329 @@ theorem stored_times_eq_changeTimes (t0 : Rat) (cs : List BcSnap) (hwf : wfChang
     (hs : sortedSnaps cs = true) : (tmOf t0 cs).map (·.offset) = changeTimes t0 cs :=
   tmOf_offsets_eq_changeTimes t0 cs hwf hs
 
+/-! ### the order of the tempo list does not matter (`from_bpm_changes_offset`, `BpmList.to_timing_map`) -/
+
+/-- **`offsets` / `snaps` / `beats` are invariant under permutation of the tempo list** when no two changes share
+an offset: the model takes the list as given, `bpm_changes_offset_to_snap` sorts it (in place — the sorted list
+is also what the sweeps index), and sorting is order-independent for an injective key. -/
+theorem timing_queries_perm_invariant (g : Array Rat) {tm tm' : List BcOff} (hp : tm.Perm tm')
+    (hd : DistinctOffsets tm) :
+    (∀ σ qs, offsetsWith g σ tm' qs = offsetsWith g σ tm qs) ∧
+    (∀ σ qs, snapsWith g σ tm' qs = snapsWith g σ tm qs) ∧
+    (∀ σq σs qs, beatsWith g σq σs tm' qs = beatsWith g σq σs tm qs) ∧
+    fromBcOff tm' = fromBcOff tm := by
+  have h := (sortBcOff_eq_of_perm hp hd).symm
+  exact ⟨fun σ qs => offsetsWith_congr g σ qs h, fun σ qs => snapsWith_congr g σ qs h,
+    fun σq σs qs => beatsWith_congr g σq σs qs h, h⟩
+
+/-- **Every entry point, every list order.**  Under the hypotheses of `offsets_correct` with strictly ascending
+changes: for EVERY permutation `tm'` of the stored times — the list handed to `TimingMap(bpm_changes_offset=…)`,
+to `TimingMap.from_bpm_changes_offset` (`fromBcOff`), or the rows of a `BpmList` given to `to_timing_map()`
+(`bpmListToTimingMap`) — `offsets` returns the integration `timeAt`, in query order. -/
+theorem offsets_correct_any_order (g : Array Rat) (hg : GridOK g) (t0 : Rat) (cs : List BcSnap)
+    (hwf : wfChanges cs = true) (hs : strictSnaps cs = true) (h0 : firstAtZero cs = true)
+    (hgc : gridCompatible g.toList cs = true) (hm : metronomeOk cs = true)
+    (σ : List Nat) (qs : List Snap) (hσ : SortsAsc σ qs) (hq : ∀ q ∈ qs, queryOk cs q = true)
+    (tm' : List BcOff) (hp : tm'.Perm (tmOf t0 cs)) :
+    offsetsWith g σ tm' qs = .ok (qs.map (timeAt t0 cs)) ∧
+    offsetsWith g σ (fromBcOff tm') qs = .ok (qs.map (timeAt t0 cs)) := by
+  have hs' := sortedSnaps_of_strict hs
+  obtain ⟨tm, h1, h2⟩ := offsets_correct g hg t0 cs hwf hs' h0 hgc hm σ qs hσ hq
+  have htm : tm = tmOf t0 cs := by
+    have := fromBcSnapNoReseat_eq t0 cs hwf hs' h0
+    rw [h1] at this
+    exact Except.ok.inj this
+  subst htm
+  have hd := tmOf_distinct t0 cs hwf hs
+  have hsort : sortBcOff tm' = sortBcOff (tmOf t0 cs) := (sortBcOff_eq_of_perm hp.symm hd).symm
+  refine ⟨by rw [offsetsWith_congr g σ qs hsort]; exact h2, ?_⟩
+  have hsort2 : sortBcOff (fromBcOff tm') = sortBcOff (tmOf t0 cs) := by
+    unfold fromBcOff; rw [sortBcOff_idem, hsort]
+  rw [offsetsWith_congr g σ qs hsort2]; exact h2
+
+/-- `BpmList.to_timing_map()` on rows `(offset, bpm, metronome)` in any order: nothing dropped, nothing merged —
+if the rows are a permutation of the stored changes, the map answers with `timeAt`. -/
+theorem offsets_correct_bpmList (g : Array Rat) (hg : GridOK g) (t0 : Rat) (cs : List BcSnap)
+    (hwf : wfChanges cs = true) (hs : strictSnaps cs = true) (h0 : firstAtZero cs = true)
+    (hgc : gridCompatible g.toList cs = true) (hm : metronomeOk cs = true)
+    (σ : List Nat) (qs : List Snap) (hσ : SortsAsc σ qs) (hq : ∀ q ∈ qs, queryOk cs q = true)
+    (rows : List (Rat × Rat × Rat))
+    (hp : (rows.map fun r => (⟨r.2.1, r.2.2, r.1⟩ : BcOff)).Perm (tmOf t0 cs)) :
+    offsetsWith g σ (bpmListToTimingMap rows) qs = .ok (qs.map (timeAt t0 cs)) :=
+  (offsets_correct_any_order g hg t0 cs hwf hs h0 hgc hm σ qs hσ hq _ hp).2
+
+/-- `to_timing_map` keeps every row: a pure time-signature change (same bpm, new metronome) stays in the map -/
+theorem bpmListToTimingMap_perm (rows : List (Rat × Rat × Rat)) :
+    (bpmListToTimingMap rows).Perm (rows.map fun r => (⟨r.2.1, r.2.2, r.1⟩ : BcOff)) := by
+  unfold bpmListToTimingMap fromBcOff sortBcOff
+  exact isort_perm _ _
+
+/-! ### milliseconds → positions → milliseconds -/
+
+/-- **Round trip, exact part.**  Under the hypotheses of `offsets_correct`: for every list of times (any order,
+duplicates) each at or after the first change and with a beat distance from its active change that is a grid
+value (`OnGridAt`), and every sorting permutation numpy may choose in either call, `TimingMap.snaps` succeeds and
+`TimingMap.offsets` applied to its result returns exactly the original times, in the original order. -/
+theorem snaps_offsets_exact (g : Array Rat) (hg : GridOK g) (t0 : Rat) (cs : List BcSnap)
+    (hwf : wfChanges cs = true) (hs : sortedSnaps cs = true) (h0 : firstAtZero cs = true)
+    (hgc : gridCompatible g.toList cs = true) (hm : metronomeOk cs = true)
+    (σ : List Nat) (ts : List Rat) (hσ : SortsAscR σ ts) (hts : ∀ t ∈ ts, OnGridAt g.toList t0 cs t) :
+    ∃ sn, snapsWith g σ (tmOf t0 cs) ts = .ok sn ∧
+      ∀ σ', SortsAsc σ' sn → offsetsWith g σ' (tmOf t0 cs) sn = .ok ts := by
+  have hb := bcsOfBco_rederive hg t0 cs hwf hs h0 hgc hm
+  cases cs with
+  | nil => simp [firstAtZero] at h0
+  | cons c rest =>
+    -- the position each time is sent to
+    let F : Rat → Snap := fun t => ((snapAtAux g t0 c rest t).toOption).getD default
+    have hF : ∀ t ∈ ts, lookupSnap g ((c :: rest).zip (tmOf t0 (c :: rest))).reverse t = .ok (F t) ∧
+        queryOk (c :: rest) (F t) = true ∧ timeAt t0 (c :: rest) (F t) = t := by
+      intro t ht
+      obtain ⟨hT, hgrid⟩ := hts t ht
+      obtain ⟨S, hS, hle, hb0, hback⟩ := timeAtAux_snapAtAux hg t0 c rest t hwf hs hm hT hgrid
+      have hFt : F t = S := by simp [F, hS, Except.toOption]
+      refine ⟨?_, ?_, ?_⟩
+      · simp only [tmOf, List.zip_cons_cons]
+        rw [lookupSnap_eq_snapAtAux g t0 c rest t hwf hs hT, hS, hFt]
+      · rw [hFt]; simp [queryOk, hle, hb0]
+      · rw [hFt]; exact hback
+    refine ⟨ts.map F, snapsWith_order g σ _ ts _ _ F hb hσ (fun t ht => (hF t ht).1), ?_⟩
+    intro σ' hσ'
+    have := offsetsWith_order g σ' (tmOf t0 (c :: rest)) (ts.map F) _ _ (timeAt t0 (c :: rest)) hb hσ'
+      (fun q hq => by
+        obtain ⟨t, ht, rfl⟩ := List.mem_map.mp hq
+        exact lookupOffset_eq_timeAt t0 (c :: rest) (F t) hwf hs (hF t ht).2.1)
+    rw [this, List.map_map]
+    congr 1
+    calc ts.map (timeAt t0 (c :: rest) ∘ F) = ts.map id :=
+          List.map_congr_left (fun t ht => (hF t ht).2.2)
+      _ = ts := List.map_id ts
+
+/-- **Round trip, general part.**  Under the hypotheses of `offsets_correct`, for `Snapper()`'s grid (`grid N`,
+N ≥ 1; the code uses N = 96): EVERY list of times at or after the first change (any order, duplicates, on or off
+the grid) goes through `snaps` and back through `offsets` to times within `1/(2N)` beat — 1/192 beat — of the
+originals, measured with the beat length of the tempo in force at each time; results stay in query order. -/
+theorem snaps_offsets_err (N : Nat) (hN : 0 < N) (t0 : Rat) (cs : List BcSnap)
+    (hwf : wfChanges cs = true) (hs : sortedSnaps cs = true) (h0 : firstAtZero cs = true)
+    (hgc : gridCompatible (grid N) cs = true) (hm : metronomeOk cs = true)
+    (σ : List Nat) (ts : List Rat) (hσ : SortsAscR σ ts) (hts : ∀ t ∈ ts, t0 ≤ t) :
+    ∃ (sn : List Snap) (B : Rat → Rat), snapsWith (grid N).toArray σ (tmOf t0 cs) ts = .ok sn ∧
+      (∀ σ', SortsAsc σ' sn → offsetsWith (grid N).toArray σ' (tmOf t0 cs) sn = .ok (ts.map B)) ∧
+      ∀ t ∈ ts, rabs (B t - t) ≤ 1 / (2 * (N : Rat)) * activeBeatLen t0 cs t := by
+  have hg := gridOK_grid hN
+  have hb := bcsOfBco_rederive hg t0 cs hwf hs h0 hgc hm
+  cases cs with
+  | nil => simp [firstAtZero] at h0
+  | cons c rest =>
+    let g := (grid N).toArray
+    let F : Rat → Snap := fun t => ((snapAtAux g t0 c rest t).toOption).getD default
+    have hF : ∀ t ∈ ts, lookupSnap g ((c :: rest).zip (tmOf t0 (c :: rest))).reverse t = .ok (F t) ∧
+        queryOk (c :: rest) (F t) = true ∧
+        rabs (timeAt t0 (c :: rest) (F t) - t) ≤ 1 / (2 * (N : Rat)) * activeBeatLen t0 (c :: rest) t := by
+      intro t ht
+      obtain ⟨S, hS, hle, hb0, hback⟩ :=
+        timeAtAux_snapAtAux_err hg (snapOn_grid_err hN) t0 c rest t hwf hs hgc hm (hts t ht)
+      have hFt : F t = S := by simp [F, g, hS, Except.toOption]
+      refine ⟨?_, ?_, ?_⟩
+      · simp only [tmOf, List.zip_cons_cons]
+        rw [lookupSnap_eq_snapAtAux g t0 c rest t hwf hs (hts t ht), hS, hFt]
+      · rw [hFt]; simp [queryOk, hle, hb0]
+      · rw [hFt]; exact hback
+    refine ⟨ts.map F, fun t => timeAt t0 (c :: rest) (F t),
+      snapsWith_order g σ _ ts _ _ F hb hσ (fun t ht => (hF t ht).1), ?_, fun t ht => (hF t ht).2.2⟩
+    intro σ' hσ'
+    have := offsetsWith_order g σ' (tmOf t0 (c :: rest)) (ts.map F) _ _ (timeAt t0 (c :: rest)) hb hσ'
+      (fun q hq => by
+        obtain ⟨t, ht, rfl⟩ := List.mem_map.mp hq
+        exact lookupOffset_eq_timeAt t0 (c :: rest) (F t) hwf hs (hF t ht).2.1)
+    rw [this, List.map_map]
+    rfl
+
+/-! ### cumulative beats -/
+
+/-- **Cumulative beats (constant metronome).**  Under the hypotheses of `offsets_correct` and one metronome `M`
+for all changes: for on-grid times (any order, duplicates) and every sorting permutation numpy may choose in
+`snaps` (`σq`) and in `beats` (`σs`), `TimingMap.beats` returns the declarative beat position `beatAt` of every
+time, in query order — so the counts of two times differ by exactly their beat distance. -/
+theorem beats_exact (g : Array Rat) (hg : GridOK g) (t0 : Rat) (cs : List BcSnap)
+    (hwf : wfChanges cs = true) (hs : sortedSnaps cs = true) (h0 : firstAtZero cs = true)
+    (hgc : gridCompatible g.toList cs = true) (hm : metronomeOk cs = true)
+    (M : Rat) (hM : ∀ c ∈ cs, c.met = M)
+    (σq : List Nat) (ts : List Rat) (hσ : SortsAscR σq ts) (hts : ∀ t ∈ ts, OnGridAt g.toList t0 cs t) :
+    ∃ sn, snapsWith g σq (tmOf t0 cs) ts = .ok sn ∧
+      ∀ σs, SortsAscFwd σs sn → beatsWith g σq σs (tmOf t0 cs) ts = .ok (ts.map (beatAt t0 cs)) := by
+  have hb := bcsOfBco_rederive hg t0 cs hwf hs h0 hgc hm
+  cases cs with
+  | nil => simp [firstAtZero] at h0
+  | cons c rest =>
+    have wc := wfChanges_mem hwf (List.mem_cons_self)
+    have hMpos : 0 < M := by rw [← hM c List.mem_cons_self]; exact wc.met_pos
+    simp only [firstAtZero, Bool.and_eq_true, decide_eq_true_eq] at h0
+    have hB : (0 : Rat) = snapTotal M c.snap := by unfold snapTotal; rw [h0.1, h0.2]; simp
+    let F : Rat → Snap := fun t => ((snapAtAux g t0 c rest t).toOption).getD default
+    have hF : ∀ t ∈ ts, lookupSnap g ((c :: rest).zip (tmOf t0 (c :: rest))).reverse t = .ok (F t) ∧
+        NormSnap M (F t) ∧ snapTotal M (F t) = beatAt t0 (c :: rest) t := by
+      intro t ht
+      obtain ⟨hT, hgrid⟩ := hts t ht
+      obtain ⟨S, hS, hn, htot⟩ := snapAtAux_total hg t0 0 c rest t hwf hs hM hB hT hgrid
+      have hFt : F t = S := by simp [F, hS, Except.toOption]
+      refine ⟨?_, by rw [hFt]; exact hn, by rw [hFt]; exact htot⟩
+      simp only [tmOf, List.zip_cons_cons]
+      rw [lookupSnap_eq_snapAtAux g t0 c rest t hwf hs hT, hS, hFt]
+    have hsn := snapsWith_order g σq _ ts _ _ F hb hσ (fun t ht => (hF t ht).1)
+    refine ⟨ts.map F, hsn, ?_⟩
+    intro σs hσs
+    unfold beatsWith
+    cases hts' : ts with
+    | nil => simp
+    | cons t1 tl =>
+      rw [← hts']
+      have hne : ts.isEmpty = false := by rw [hts']; rfl
+      simp only [hne, Bool.false_eq_true, if_false, hsn, bind, Except.bind]
+      have hn : ∀ s ∈ ts.map F, NormSnap M s := by
+        intro s hs'
+        obtain ⟨t, ht, rfl⟩ := List.mem_map.mp hs'
+        exact (hF t ht).2.1
+      have := beats_of_snaps hMpos (ts.map F) σs hσs hn
+      simp only [bind, Except.bind] at this
+      refine this.trans ?_
+      rw [List.map_map]
+      congr 1
+      exact List.map_congr_left (fun t ht => (hF t ht).2.2)
+
+/-! ### the executable `offsets` / `snaps` / `beats` (what the correspondence check runs) -/
+
+/-- the sorting permutation the model itself uses satisfies `SortsAsc` -/
+theorem stableArgsort_sortsAsc (qs : List Snap) : SortsAsc (stableArgsort Snap.lt qs) qs :=
+  stableArgsort_sortsAsc' qs
+
+/-- **`offsets`, as executed by the driver**, returns the integration for every tempo list in the domain, every
+list order / entry point, every query list. -/
+theorem offsets_run_correct (g : Array Rat) (hg : GridOK g) (t0 : Rat) (cs : List BcSnap)
+    (hwf : wfChanges cs = true) (hs : strictSnaps cs = true) (h0 : firstAtZero cs = true)
+    (hgc : gridCompatible g.toList cs = true) (hm : metronomeOk cs = true)
+    (qs : List Snap) (hq : ∀ q ∈ qs, queryOk cs q = true) (tm' : List BcOff) (hp : tm'.Perm (tmOf t0 cs)) :
+    offsets g tm' qs = .ok (qs.map (timeAt t0 cs)) ∧ offsets g (fromBcOff tm') qs = .ok (qs.map (timeAt t0 cs)) :=
+  offsets_correct_any_order g hg t0 cs hwf hs h0 hgc hm _ qs (stableArgsort_sortsAsc qs) hq tm' hp
+
+/-- **`snaps` then `offsets`, as executed**: on-grid times come back exactly. -/
+theorem roundtrip_run_exact (g : Array Rat) (hg : GridOK g) (t0 : Rat) (cs : List BcSnap)
+    (hwf : wfChanges cs = true) (hs : sortedSnaps cs = true) (h0 : firstAtZero cs = true)
+    (hgc : gridCompatible g.toList cs = true) (hm : metronomeOk cs = true)
+    (ts : List Rat) (hts : ∀ t ∈ ts, OnGridAt g.toList t0 cs t) :
+    ∃ sn, snaps g (tmOf t0 cs) ts = .ok sn ∧ offsets g (tmOf t0 cs) sn = .ok ts := by
+  obtain ⟨sn, h1, h2⟩ := snaps_offsets_exact g hg t0 cs hwf hs h0 hgc hm _ ts (stableArgsort_sortsAscR ts) hts
+  exact ⟨sn, h1, h2 _ (stableArgsort_sortsAsc sn)⟩
+
+/-- **`snaps` then `offsets`, as executed, any times**: within 1/(2N) beat at the active tempo. -/
+theorem roundtrip_run_err (N : Nat) (hN : 0 < N) (t0 : Rat) (cs : List BcSnap)
+    (hwf : wfChanges cs = true) (hs : sortedSnaps cs = true) (h0 : firstAtZero cs = true)
+    (hgc : gridCompatible (grid N) cs = true) (hm : metronomeOk cs = true)
+    (ts : List Rat) (hts : ∀ t ∈ ts, t0 ≤ t) :
+    ∃ (sn : List Snap) (B : Rat → Rat), snaps (grid N).toArray (tmOf t0 cs) ts = .ok sn ∧
+      offsets (grid N).toArray (tmOf t0 cs) sn = .ok (ts.map B) ∧
+      ∀ t ∈ ts, rabs (B t - t) ≤ 1 / (2 * (N : Rat)) * activeBeatLen t0 cs t := by
+  obtain ⟨sn, B, h1, h2, h3⟩ :=
+    snaps_offsets_err N hN t0 cs hwf hs h0 hgc hm _ ts (stableArgsort_sortsAscR ts) hts
+  exact ⟨sn, B, h1, h2 _ (stableArgsort_sortsAsc sn), h3⟩
+
+/-- **`beats`, as executed** (constant metronome, on-grid times): the declarative beat positions. -/
+theorem beats_run_exact (g : Array Rat) (hg : GridOK g) (t0 : Rat) (cs : List BcSnap)
+    (hwf : wfChanges cs = true) (hs : sortedSnaps cs = true) (h0 : firstAtZero cs = true)
+    (hgc : gridCompatible g.toList cs = true) (hm : metronomeOk cs = true)
+    (M : Rat) (hM : ∀ c ∈ cs, c.met = M) (ts : List Rat) (hts : ∀ t ∈ ts, OnGridAt g.toList t0 cs t) :
+    beats g (tmOf t0 cs) ts = .ok (ts.map (beatAt t0 cs)) := by
+  unfold beats
+  by_cases he : ts.isEmpty = true
+  · have : ts = [] := List.isEmpty_iff.mp he
+    simp [this]
+  · obtain ⟨sn, h1, h2⟩ := beats_exact g hg t0 cs hwf hs h0 hgc hm M hM
+      (stableArgsort (fun a b => decide (a < b)) ts) ts (stableArgsort_sortsAscR ts) hts
+    simp only [he, Bool.false_eq_true, if_false, h1, bind, Except.bind]
+    exact h2 _ (stableArgsort_sortsAscFwd sn)
+
+/-! ### the snapper, for the grid the code builds (`grid N`, every N ≥ 1) -/
+
+/-- **Snapping returns a nearest allowed fraction** (for every N ≥ 1 and every beat `x`). -/
+theorem snap_nearest (N : Nat) (hN : 0 < N) (x : Rat) :
+    IsNearest (grid N) (frac x) (snapOn (grid N).toArray x - (ffloor x : Rat)) := by
+  have hg := gridOK_grid hN
+  exact snapOn_nearest hg.asc x ⟨1, hg.one_mem, le_of_lt (frac_lt_one x)⟩
+
+/-- **Snapping is idempotent.** -/
+theorem snap_idem (N : Nat) (hN : 0 < N) (x : Rat) :
+    snapOn (grid N).toArray (snapOn (grid N).toArray x) = snapOn (grid N).toArray x :=
+  snapOn_idem (gridOK_grid hN) x
+
+/-- **Snapping moves a beat by at most 1/(2N)** — 1/192 beat for the code's N = 96. -/
+theorem snap_err (N : Nat) (hN : 0 < N) (x : Rat) : rabs (snapOn (grid N).toArray x - x) ≤ 1 / (2 * (N : Rat)) :=
+  snapOn_grid_err hN x
+
+/-- a beat is left alone exactly when its fractional part is an allowed fraction -/
+theorem snap_fixes_iff_on_grid (N : Nat) (hN : 0 < N) (x : Rat) :
+    snapOn (grid N).toArray x = x ↔ frac x ∈ grid N :=
+  snapOn_eq_self_iff (gridOK_grid hN) x
+
+/-- the code's constants: `Snapper()` snaps within 1/192 beat -/
+theorem snap_err_default (x : Rat) : rabs (snapOn defaultGrid x - x) ≤ 1 / 192 := by
+  have := snap_err defaultMaxDiv (by decide) x
+  have e : (1 : Rat) / (2 * ((defaultMaxDiv : Nat) : Rat)) = 1 / 192 := by decide +kernel
+  rw [e] at this
+  exact this
+
+/-! ### error branches and the known finding -/
+
+/-- `TimingMap.snaps`: with no tempo change at or before a time the model raises the `IndexError` class -/
+theorem lookupSnap_before_first (g : Array Rat) (rb : List (BcSnap × BcOff)) (t : Rat)
+    (h : ∀ p ∈ rb, p.2.offset > t) : lookupSnap g rb t = .error .index := by
+  unfold lookupSnap
+  have : rb.dropWhile (fun p => decide (p.2.offset > t)) = [] := by
+    induction rb with
+    | nil => rfl
+    | cons a tl ih =>
+      rw [List.dropWhile_cons, decide_eq_true (h a (by simp))]
+      exact ih (fun p hp => h p (by simp [hp]))
+  rw [this]
+
+/-- **D22 on the model**: without `gridCompatible` the statement of `offsets_correct` is false — a well-formed,
+strictly ascending list that starts at (0, 0) and keeps one metronome, whose second and third changes are a
+distance apart that is not a grid value, gives an `offsets` answer different from the integration (here for the
+grid `N = 4`, kernel-evaluated; the same happens on the real code with N = 96, witness in known_findings). -/
+theorem grid_incompatible_counterexample :
+    ∃ (N : Nat) (cs : List BcSnap) (q : Snap), 0 < N ∧ wfChanges cs = true ∧ strictSnaps cs = true ∧
+      firstAtZero cs = true ∧ metronomeOk cs = true ∧ queryOk cs q = true ∧ gridCompatible (grid N) cs = false ∧
+      (fromBcSnapNoReseat 0 cs).toOption.map (fun tm => (offsets (grid N).toArray tm [q]).toOption)
+        ≠ some (some [timeAt 0 cs q]) :=
+  ⟨4, [⟨120, 4, ⟨0, 0, some 4⟩⟩, ⟨60, 4, ⟨0, 1/8, some 4⟩⟩, ⟨240, 4, ⟨1, 1/3, some 4⟩⟩], ⟨3, 0, none⟩,
+    by decide +kernel⟩
+
 /-! non-vacuity: concrete instances of the hypotheses -/
+
+/-- `offsets_correct_bpmList` / `offsets_correct_any_order`: rows in shuffled order with a pure time-signature
+change (120 bpm 4/4 → 120 bpm 3/4) satisfy the hypotheses, and the model answers with `timeAt` -/
+example :
+    let cs : List BcSnap := [⟨120, 4, ⟨0, 0, some 4⟩⟩, ⟨120, 3, ⟨1, 0, some 3⟩⟩, ⟨200, 3, ⟨3, 0, some 3⟩⟩]
+    let qs : List Snap := [⟨2, 0, some 3⟩, ⟨0, 1, none⟩, ⟨4, 1/2, some 3⟩]
+    let rows : List (Rat × Rat × Rat) := [(5000, 200, 3), (0, 120, 4), (2000, 120, 3)]
+    wfChanges cs = true ∧ strictSnaps cs = true ∧ firstAtZero cs = true ∧ metronomeOk cs = true ∧
+      gridCompatible (grid 4) cs = true ∧ (∀ q ∈ qs, queryOk cs q = true) ∧
+      (rows.map fun r => (⟨r.2.1, r.2.2, r.1⟩ : BcOff)).Perm (tmOf 0 cs) ∧
+      offsets (grid 4).toArray (bpmListToTimingMap rows) qs = .ok (qs.map (timeAt 0 cs)) := by
+  refine ⟨by decide +kernel, by decide +kernel, by decide +kernel, by decide +kernel, by decide +kernel,
+    by decide +kernel, by decide +kernel, by decide +kernel⟩
+
+/-- `snaps_offsets_exact` / `beats_exact`: on-grid times in a two-tempo map (hypothesis `OnGridAt` through its
+evaluated form `timeInfo2`), and what the model computes there -/
+example :
+    let cs : List BcSnap := [⟨120, 4, ⟨0, 0, some 4⟩⟩, ⟨60, 4, ⟨1, 2, some 4⟩⟩]
+    let ts : List Rat := [4000, -250, 2750, 1000]
+    (∀ t ∈ ts, (timeInfo2 (grid 4) (-250) cs t).beforeFirst = false ∧ (timeInfo2 (grid 4) (-250) cs t).onGrid = true) ∧
+      ((fromBcSnapNoReseat (-250) cs).toOption.map fun tm =>
+        ((snaps (grid 4).toArray tm ts).toOption.map fun sn => (offsets (grid 4).toArray tm sn).toOption))
+        = some (some (some ts)) ∧
+      ((fromBcSnapNoReseat (-250) cs).toOption.map fun tm => (beats (grid 4).toArray tm ts).toOption)
+        = some (some (ts.map (beatAt (-250) cs))) := by
+  refine ⟨by decide +kernel, by decide +kernel, by decide +kernel⟩
 
 example : SortsAsc [1, 2, 0] [⟨2, 0, none⟩, ⟨0, 1/2, none⟩, ⟨1, 3, none⟩] := by
   refine ⟨by unfold IsPerm; decide, by decide, ?_⟩
